@@ -155,7 +155,8 @@ Definition write_sector (s : st) (x z : N) (data : list N) (now : N) : st * list
         if sector_limit <=? n' + need then (s, [], WOutside) else
         let u2 := mark u1 n' (N.to_nat need) true in
         let o' := n' * 256 + need in
-        let ws := [ mkwr (4 * i) (be 4 o'); mkwr (4096 + 4 * i) (be 4 (now mod 2^32));
+        (* setHead writes the timestamp first and the location last (fix 2 of phase 5) *)
+        let ws := [ mkwr (4096 + 4 * i) (be 4 (now mod 2^32)); mkwr (4 * i) (be 4 o');
                     mkwr (4096 * n') (be 4 (flen data)); mkwr (4096 * n' + 4) data ] in
         ({| offs := setN (offs s) i o'; tss := setN (tss s) i (now mod 2^32); used := u2;
             hwm := N.max (hwm s) (n' + need); img := rev ws ++ img s |}, ws, WOk)
@@ -230,8 +231,8 @@ Definition torn_image (f : file) (ws : list wr) (k : nat) (t : N) : file :=
 (* ---------- WriteSector on a failing medium (phase 4) ----------
    The k-th I/O call of the operation fails (Seek and Write calls counted from 0; the medium has no WriterAt,
    so each header word goes out as Seek + Write).  A failing Write of more than 4 bytes first stores `short`
-   bytes; a failing Write of a 4-byte word stores nothing.  Faithful to the code after fix db6a924: when setHead
-   fails the old run of the chunk is marked used again. *)
+   bytes; a failing Write of a 4-byte word stores nothing.  Faithful to the code after the fixes db6a924 and phase 5: setHead writes
+   the timestamp first and the location last; when it fails the allocation is undone in memory. *)
 Inductive io := IOSeek | IOWrite (p : N) (d : list N).
 
 Fixpoint run_plan (failat : nat) (short : N) (c : nat) (plan : list io) : list wr * bool :=
@@ -271,10 +272,12 @@ Definition write_sector_fail (failat : nat) (short : N) (s : st) (x z : N) (data
         let u2 := mark u1 n' (N.to_nat need) true in
         let o' := n' * 256 + need in
         let '(wsH, fH) := run_plan failat short 0
-                            [IOSeek; IOWrite (4 * i) (be 4 o'); IOSeek; IOWrite (4096 + 4 * i) (be 4 (now mod 2^32))] in
+                            [IOSeek; IOWrite (4096 + 4 * i) (be 4 (now mod 2^32)); IOSeek; IOWrite (4 * i) (be 4 o')] in
         if fH then
-          (* setHead failed: memory already names the new run; the old run is reserved again; no timestamp *)
-          ({| offs := setN (offs s) i o'; tss := tss s; used := mark u2 n (N.to_nat cur) true;
+          (* setHead failed: the location in the file is unchanged (it is written last); the allocation is undone:
+             the new run freed, the old run marked, the table entry restored from (oldN, oldNow) *)
+          ({| offs := setN (setN (offs s) i o') i (n * 256 + cur); tss := tss s;
+              used := mark (mark u2 n' (N.to_nat need) false) n (N.to_nat cur) true;
               hwm := N.max (hwm s) (n' + need); img := rev wsH ++ img s |}, wsH, WFErr)
         else
           let '(wsD, fD) := run_plan failat short 4
